@@ -42,7 +42,7 @@ Init0 == [tid |-> "none", line |-> 0, maxsize |-> 0, pool |-> 0, door |-> 0, loa
           sent |-> <<>>, appl |-> <<>>, psent |-> <<>>, owes |-> <<>>, need |-> <<>>,
           gets |-> 0, hits |-> 0, lp |-> [k \in KeyDom |-> "none"], lrun |-> [k \in KeyDom |-> 0], lfail |-> <<>>, lcur |-> [k \in KeyDom |-> {}], lmine |-> <<>>, rv |-> <<>>, rdirty |-> <<>>, pl |-> <<>>,
           lastTick |-> -1, stalled |-> FALSE, heldAcc |-> 0, thresh |-> 28610, tick |-> 1024, nsnap |-> 0, nnotif |-> 0, nevents |-> 0, viol |-> {}, traces |-> 0, hangs |-> 0,
-          stuck |-> 0, skipped |-> 0]
+          stuck |-> 0, skipped |-> 0, una |-> {}, qcap |-> 1024, batch |-> 128]
 
 V(s, prop, kind) ==
   IF Cardinality(s.viol) >= 40 THEN s
@@ -72,6 +72,7 @@ ClearLp(s, p, k) == IF s.lp[k] = p THEN [s EXCEPT !.lp = [s.lp EXCEPT ![k] = "no
 
 DoReset(s, e) ==
   [Init0 EXCEPT !.tid = e.id, !.maxsize = e.maxsize, !.pool = e.pool, !.door = e.door, !.loading = e.loading,
+                !.qcap = IF e.qcap > 0 THEN e.qcap ELSE 1024, !.batch = IF "batch" \in DOMAIN e /\ e.batch > 0 THEN e.batch ELSE 128,
                 !.mode = e.mode, !.now = e.t, !.lastTick = e.t, !.thresh = e.thresh, !.tick = e.tick, !.viol = s.viol, !.traces = s.traces + 1, !.hangs = s.hangs,
                 !.nsnap = s.nsnap, !.nnotif = s.nnotif, !.nevents = s.nevents, !.stuck = s.stuck, !.skipped = s.skipped]
 
@@ -106,8 +107,13 @@ DoSetNew(s, e) ==
       \* the observer keeps the deadline the call establishes (call time + TTL), not the one the code stored,
       \* so that a wrong deadline also shows up as a miss on a live entry / an early expiry
       xdl == IF isset THEN ExpDl(s, c, 0) ELSE IF isload THEN ExpDl(s, [ttl |-> li.ttl, t |-> li.t], 0) ELSE e.dl
-      s4c == Vif(s4, isset /\ c.ttl = 0 /\ e.dl # 0, "C06", "new_entry_without_ttl_has_a_deadline")
-  IN [s4c EXCEPT !.mp = [s.mp EXCEPT ![e.k] = e.e],
+      s4d == Vif(s4, isset /\ c.ttl = 0 /\ e.dl # 0, "C06", "new_entry_without_ttl_has_a_deadline")
+      \* C02 (in flight): entries in the map the policy has not been told about sit in the write queue, in the
+      \* maintenance goroutine's batch, or with a writer that is waiting to send
+      una1 == s.una \cup {e.e}
+      s4c == Vif(s4d, s.pool = 0 /\ ~s.closed /\ Cardinality(una1) > s.qcap + s.batch + Cardinality(DOMAIN s.pc) + 1,
+                 "C02", "unaccounted_resident_entries_exceed_queue_plus_writers")
+  IN [s4c EXCEPT !.mp = [s.mp EXCEPT ![e.k] = e.e], !.una = una1,
                 !.en = Put(s.en, e.e, [NoEn EXCEPT !.k = e.k, !.v = e.v, !.cost = e.cost, !.dl = xdl, !.ub = e.cost]),
                 !.owes = Put(s.owes, e.p, <<e.e, "NEW", e.cost>>),
                 !.press = s.press + e.cost,
@@ -169,7 +175,7 @@ DoDel(s, e) ==
             ELSE Vif(s0, cur # 0 /\ ~s.closed, "C01", "delete_missed_present_key")
       o == En(s, e.e)
   IN IF e.ok = 1
-     THEN [s1 EXCEPT !.mp = [s.mp EXCEPT ![e.k] = 0],
+     THEN [s1 EXCEPT !.mp = [s.mp EXCEPT ![e.k] = 0], !.una = @ \ {e.e},
                      !.en = Put(s.en, e.e, [o EXCEPT !.left = "REMOVED"]),
                      !.owes = Put(s.owes, e.p, <<e.e, "REMOVE", 0>>),
                      !.lin = Put(s.lin, e.p, [NoLin EXCEPT !.kind = "del", !.found = 1, !.v = 0, !.e = e.e])]
@@ -244,7 +250,7 @@ DoPostSend(s, e) ==
 DoSinkOut(s, e) ==
   LET s1 == Owed(s, e.p)
       o == En(s1, e.e)
-      s2 == [s1 EXCEPT !.appl = BagAdd(s1.appl, <<e.e, e.code, e.delta>>)]
+      s2 == [s1 EXCEPT !.appl = BagAdd(s1.appl, <<e.e, e.code, e.delta>>), !.una = IF e.code = "NEW" THEN @ \ {e.e} ELSE @]
   IN IF e.code = "REMOVE" /\ e.dd = 1
      THEN [s2 EXCEPT !.en = Put(s2.en, e.e, [o EXCEPT !.gone = TRUE]),
                      !.press = IF o.gone THEN s2.press ELSE s2.press - o.ub]
@@ -264,7 +270,7 @@ DoMapRemoved(s, e) ==
   IN IF e.deleted = 1
      THEN LET a == Vif(s2, cur # e.e, "C01", "removed_slot_of_another_entry")
               b == Vif(a, e.reason = "EXPIRED" /\ (o.dl = 0 \/ o.dl > s.now), "C04", "expired_before_deadline")
-          IN [b EXCEPT !.mp = [s.mp EXCEPT ![o.k] = IF cur = e.e THEN 0 ELSE @],
+          IN [b EXCEPT !.mp = [s.mp EXCEPT ![o.k] = IF cur = e.e THEN 0 ELSE @], !.una = @ \ {e.e},
                        !.pn = Put(b.pn, e.p, <<e.e, e.reason>>)]
      ELSE Vif(s2, cur = e.e /\ e.e # 0 /\ ~s.closed, "C01", "identity_removal_failed_on_present_entry")
 
@@ -346,7 +352,7 @@ DoSnap(s, e) ==
                               IF x \in mapIds THEN [s.en[x] EXCEPT !.ub = s.en[x].cost]
                               ELSE [s.en[x] EXCEPT !.dead = TRUE]],
                     !.press = costSum,
-                    !.sent = <<>>, !.appl = <<>>, !.psent = <<>>, !.owes = <<>>]
+                    !.sent = <<>>, !.appl = <<>>, !.psent = <<>>, !.owes = <<>>, !.una = {}]
      ELSE o
 
 DoTickLocked(s, e) == [Owed(s, e.p) EXCEPT !.lastTick = e.t, !.stalled = TRUE, !.heldAcc = 0]
